@@ -504,6 +504,202 @@ def check_lock_scenario(case):
     return res, f
 
 
+# ------------------------------------------------------------------ drivers: nothing goes to the device after close()
+DHEADER = 'From CF Require Import Common.Bytes C10.DriverClose.\nOpen Scope Z_scope.\n'
+_DOPS = {'connect': 'DConnect', 'recv': 'DRecv'}
+_DFAULT = {None: 'NoFault', 'mode': 'ModeSwitchRaises', 'dispose': 'DisposeRaises'}
+
+
+def driver_term(ops):
+    def t(o):
+        if o[0] == 'send':
+            return 'DSend %d' % o[1]
+        if o[0] == 'close':
+            return 'DClose %s' % _DFAULT[o[1]]
+        return _DOPS[o[0]]
+    return 'dobs (drun ClearAlways dinit [%s])' % '; '.join(t(o) for o in ops)
+
+
+def run_driver_history(kind, ops):
+    """ops on ONE real driver object over a fake device layer: ['connect'] / ['send', p] / ['recv'] / ['close', fault]
+    with fault None | 'mode' (the CRTP-mode control transfer raises) | 'dispose' (closing the device raises).
+    kind 'usb': UsbDriver over a fake CfUsb; 'radio': RadioDriver over a scripted radio (fault 'mode' does not exist there).
+    Returns per op: 0 = nothing written / ok, 1 = written to the device, 2 = 'Link already open!', 3 = other exception;
+    then the total number of packets written to the device."""
+    from cflib.crtp.crtpstack import CRTPPacket
+    written = []
+    state = {'fault': None, 'conn': -1}
+    res = []
+    if kind == 'usb':
+        from cflib.crtp import usbdriver
+
+        class FakeCfUsb:
+            def __init__(self, device=None, devid=0):
+                self.dev = object()
+                self.handle = object()
+                self.closed = False
+                state['conn'] += 1
+                self.conn = state['conn']
+
+            def set_crtp_to_usb(self, flag):
+                if not flag and state['fault'] == 'mode':
+                    raise OSError('scripted: vendor control transfer failed')
+
+            def close(self):
+                if state['fault'] == 'dispose':
+                    raise OSError('scripted: dispose failed')
+                self.closed = True
+
+            def send_packet(self, data):
+                written.append((self.conn, tuple(data)))
+
+            def receive_packet(self):
+                return ()
+
+            def scan(self):
+                return []
+        saved = (usbdriver.CfUsb, usbdriver._UsbReceiveThread.start)
+        usbdriver.CfUsb = FakeCfUsb
+        usbdriver._UsbReceiveThread.start = lambda self: None
+        link = usbdriver.UsbDriver()
+        uri = 'usb://0'
+
+        def restore():
+            usbdriver.CfUsb, usbdriver._UsbReceiveThread.start = saved
+    else:
+        from cflib.crtp import radiodriver
+
+        class Radio:
+            version = 1.0
+
+            def __init__(self):
+                state['conn'] += 1
+                self.conn = state['conn']
+                self.cur = None
+
+            def set_channel(self, c): pass
+            def set_data_rate(self, d): pass
+            def set_address(self, a): pass
+            def set_arc(self, a): pass
+
+            def close(self):
+                if state['fault'] == 'dispose':
+                    raise OSError('scripted: dispose failed')
+
+            def send_packet(self, data):
+                data = tuple(data)
+                if data != (0xff, 0x05, 0x01) and len(data) > 1:
+                    written.append((self.conn, data))
+                if self.cur is not None and data != (0xff, 0x05, 0x01):
+                    self.cur._sp = True
+                return None
+        saved = (radiodriver.RadioManager.__dict__['open'], radiodriver._RadioDriverThread.start)
+        radios = []
+
+        def open_radio(devid):
+            radios.append(Radio())
+            return radios[-1]
+
+        def start(th):      # the radio thread: handshake, then one round of the loop per queued packet, synchronously
+            radios[-1].cur = th
+            th.run()
+        radiodriver.RadioManager.open = staticmethod(open_radio)
+        radiodriver._RadioDriverThread.start = start
+        link = radiodriver.RadioDriver()
+        uri = 'radio://0/80/2M'
+
+        def restore():
+            setattr(radiodriver.RadioManager, 'open', saved[0])
+            radiodriver._RadioDriverThread.start = saved[1]
+    try:
+        for o in ops:
+            n0 = len(written)
+            try:
+                if o[0] == 'connect':
+                    link.connect(uri, None, None)
+                    res.append(0)
+                elif o[0] == 'send':
+                    pk = CRTPPacket(0x90, [o[1] & 0xFF, 1])
+                    if kind == 'radio':
+                        # the queue is served by the (synchronous) radio thread: run one round of its loop
+                        if link.out_queue is not None and link.out_queue.full():
+                            link.out_queue.get()
+                        link.send_packet(pk)
+                        th = link._thread
+                        if th is not None and link._radio is not None:
+                            th._sp = False
+                            radios[-1].cur = th
+                            _radio_round(th, link)
+                    else:
+                        link.send_packet(pk)
+                    res.append(1 if len(written) > n0 else 0)
+                elif o[0] == 'recv':
+                    link.receive_packet(0)
+                    res.append(1 if len(written) > n0 else 0)
+                elif o[0] == 'close':
+                    state['fault'] = o[1]
+                    try:
+                        link.close()
+                    finally:
+                        state['fault'] = None
+                    res.append(1 if len(written) > n0 else 0)
+            except Exception as e:
+                res.append(2 if 'already open' in str(e) else 3)
+    finally:
+        restore()
+    return res + [len(written)]
+
+
+def _radio_round(th, link):
+    """one iteration of the radio thread's sending: take the queued packet and hand it to the radio"""
+    try:
+        pk = link.out_queue.get(False)
+    except Exception:
+        return
+    data = [pk.header] + list(pk.data)
+    th._radio.send_packet(data)
+
+
+def driver_histories():
+    faults = (None, 'mode', 'dispose')
+    out = []
+    for f1 in faults:       # shortest first: the first failing history is the witness
+        out.append(('usb', [['connect'], ['send', 1], ['close', f1], ['send', 2], ['connect']]))
+    for f1 in faults:
+        for f2 in faults:
+            out.append(('usb', [['connect'], ['send', 1], ['send', 2], ['close', f1], ['send', 3], ['recv'], ['send', 4],
+                                ['connect'], ['send', 5], ['close', f2], ['send', 6], ['connect'], ['close', None]]))
+        out.append(('usb', [['connect'], ['connect'], ['send', 1], ['close', f1], ['close', None] if False else ['send', 2]]))
+    out.append(('radio', [['connect'], ['send', 1], ['close', None], ['send', 2], ['recv'], ['connect'], ['send', 3],
+                          ['close', None], ['send', 4]]))
+    return out
+
+
+def check_driver_history(kind, ops):
+    case = {'driver_history': [kind, ops]}
+    try:
+        got = run_driver_history(kind, ops)
+    except Exception as e:
+        return None, {'class': 'driver_history_harness_raises', 'case': case, 'expected': None, 'observed': repr(e),
+                      'detail': 'driver history could not be executed'}
+    closed = False
+    for k, (o, r) in enumerate(zip(ops, got)):
+        if o[0] == 'close' and r != 3:
+            closed = True               # close() returned normally (it swallows device errors)
+        elif o[0] == 'connect':
+            if closed and r != 0:
+                return got, {'class': 'closed_driver_cannot_connect_again', 'case': case, 'expected': 0, 'observed': r,
+                             'detail': '%s driver: connect() after close() returned fails (op %d): the object still holds '
+                                       'its device' % (kind, k)}
+            if r == 0:
+                closed = False
+        elif closed and r == 1:
+            return got, {'class': 'closed_driver_writes_to_device', 'case': case, 'expected': 0, 'observed': r,
+                         'detail': '%s driver: %s after close() returned wrote a packet to the device (op %d): something is '
+                                   'transmitted on a closed link' % (kind, o[0], k)}
+    return got, None
+
+
 # ------------------------------------------------------------------ events -> Coq
 def _ev(e):
     k = e[0]
@@ -742,6 +938,19 @@ def tie(ctx):
         if nld <= 3:
             dis.append({'what': 'send lock: calls/holder/transmissions of model (C10/Lock.v) and implementation differ',
                         'case': lcases[bi], 'model': mv, 'impl': lexp[bi]})
+    # ---- driver objects over fake devices: connect / send / close with device faults / send / connect again
+    dh = [(k, o) for k, o in driver_histories() if k == 'usb']
+    dterms = [driver_term(o) for _, o in dh]
+    dexp = []
+    for k, o in dh:
+        try:
+            dexp.append(run_driver_history(k, o))
+        except Exception:
+            dexp.append([-9])
+    for bi, mv in coqrun.compare_blocks(DHEADER, dterms, dexp, tag='c10d', shard=16):
+        nd += 1
+        dis.append({'what': 'UsbDriver over a fake device: what is written / raised differs from C10/DriverClose.v',
+                    'case': {'driver_history': list(dh[bi])}, 'model': mv, 'impl': dexp[bi]})
     if dis:
         try:    # diagnostic: does the implementation still behave like the tree before fix F10?
             dd = [d for d in dis if 'expanded' in d]
@@ -1006,6 +1215,12 @@ def oracle(ctx, deep=False):
         _, f = check_lock_scenario(c)
         if f and f['class'] not in {x['class'] for x in fails}:
             fails.append(_shrink_lock(f))
+    n_dh = 0
+    for kind, ops in driver_histories():
+        n_dh += 1
+        _, f = check_driver_history(kind, ops)
+        if f and f['class'] not in {x['class'] for x in fails}:
+            fails.append(f)
     n_hist = 0
     for h in radio_histories(ctx.scale(3, 4)):
         n_hist += 1
@@ -1021,7 +1236,7 @@ def oracle(ctx, deep=False):
         if f and f['class'] not in seen:
             seen.add(f['class'])
             fails.append(_shrink(f))
-    return {'evaluations': len(cases) + n_hist + n_lock, 'failures': fails,
+    return {'evaluations': len(cases) + n_hist + n_lock + n_dh, 'failures': fails,
             'rule': 'property text on what the fake links saw: no packet on a closed/replaced link, every request only in '
                     'its own session, one transmission without expectation or on a reliable link, none after the answer '
                     '(longest pending pattern that is a prefix) or the end of the session, and with ideal timers '
@@ -1029,6 +1244,8 @@ def oracle(ctx, deep=False):
 
 
 def replay(payload, ctx):
+    if 'driver_history' in payload['case']:
+        return check_driver_history(*payload['case']['driver_history'])[1]
     if 'lock_events' in payload['case']:
         return check_lock_scenario(payload['case'])[1]
     if 'radio_history' in payload['case']:
